@@ -195,6 +195,52 @@ fn pure(w: &mut TraceWriter, args: &Args) {
         let back = dsf.lance_file_version().map(|x| vname(&x)).unwrap_or("invalid".into());
         w.emit(json!(["variant", vname(&v), disp, parsed, vname(&resolved), [a, b], fromnum, dsf.version, back, v.is_unstable()]));
     }
+    // 4. a table's files all carry one storage version: Fragment::try_infer_version over every layout of up to two
+    //    fragments with up to three data files each, file versions drawn from four (major, minor) pairs
+    let pairs: [(u32, u32); 4] = [(0, 2), (2, 0), (0, 3), (2, 1)];
+    let mut frag_layouts: Vec<Vec<(u32, u32)>> = vec![vec![]];
+    for n in 1..=3usize {
+        let mut idx = vec![0usize; n];
+        loop {
+            frag_layouts.push(idx.iter().map(|i| pairs[*i]).collect());
+            let mut k = 0;
+            while k < n {
+                idx[k] += 1;
+                if idx[k] < pairs.len() {
+                    break;
+                }
+                idx[k] = 0;
+                k += 1;
+            }
+            if k == n {
+                break;
+            }
+        }
+    }
+    let mk = |id: u64, files: &Vec<(u32, u32)>| {
+        let mut f = Fragment::new(id);
+        for (j, (maj, min)) in files.iter().enumerate() {
+            f.files.push(lance_table::format::DataFile::new(format!("f{id}_{j}.lance"), vec![j as i32], vec![0], *maj, *min, None, None));
+        }
+        f
+    };
+    let mut infer = |frs: Vec<&Vec<(u32, u32)>>| {
+        let fragments: Vec<Fragment> = frs.iter().enumerate().map(|(i, fl)| mk(i as u64, fl)).collect();
+        let res = match Fragment::try_infer_version(&fragments) {
+            Ok(Some(v)) => vname(&v),
+            Ok(None) => "none".to_string(),
+            Err(_) => "error".to_string(),
+        };
+        let shape: Vec<Vec<[u32; 2]>> = frs.iter().map(|fl| fl.iter().map(|(a, b)| [*a, *b]).collect()).collect();
+        w.emit(json!(["infer", shape, res]));
+    };
+    infer(vec![]);
+    for a in &frag_layouts {
+        infer(vec![a]);
+        for b in &frag_layouts {
+            infer(vec![a, b]);
+        }
+    }
     for maj in 0..4u32 {
         for min in 0..5u32 {
             match LanceFileVersion::try_from_major_minor(maj, min) {
